@@ -755,6 +755,10 @@ func (q *pathQ) reach(b *ssa.BasicBlock, idx int) (ssa.Instruction, []*ssa.Basic
 				killed = true
 				break
 			}
+			if isNoReturnCall(in) {
+				killed = true
+				break
+			}
 		}
 		if killed {
 			continue
@@ -812,6 +816,27 @@ func phiConstSucc(p, s *ssa.BasicBlock) int {
 		}
 	}
 	return -1
+}
+
+// isNoReturnCall: calls that terminate the process (control never continues past them).
+func isNoReturnCall(in ssa.Instruction) bool {
+	c, ok := in.(*ssa.Call)
+	if !ok {
+		return false
+	}
+	d, ok := describeCallee(c)
+	if !ok {
+		return false
+	}
+	switch {
+	case d.Pkg == "os" && d.Name == "Exit" && d.Recv == "":
+		return true
+	case d.Pkg == "libs/os" && d.Name == "Exit":
+		return true
+	case d.Pkg == "log" && strings.HasPrefix(d.Name, "Fatal"):
+		return true
+	}
+	return false
 }
 
 func instrIndex(in ssa.Instruction) int {
